@@ -1056,8 +1056,9 @@ pub struct GlobalData {
     pub final_configuration: Option<Vec<String>>,
     pub environment: HashMap<String, DataArc>,
 
-    /// Stores any delayed send (with a "sendid"), Key: sendid
-    pub delayed_send: HashMap<String, Guard>,
+    /// Stores the pending delayed sends, Key: sendid (or a generated key for sends without id).\
+    /// Several pending sends may share one id, each entry carries a unique number.
+    pub delayed_send: HashMap<String, Vec<(u32, Guard)>>,
     pub io_processors: HashMap<String, Arc<Mutex<Box<dyn EventIOProcessor>>>>,
 
     pub data: DataStore,
